@@ -131,6 +131,19 @@ class TaskCtx(object):
                 if verdict == 'proved':
                     verdict = 'unknown'
                 failing.append(d)
+        if verdict == 'unknown' and replay is not None and rep is None \
+                and failing:
+            # no counter-model from the solver: still look for a failing
+            # input on the real code (the replay harnesses carry their own
+            # input batteries); a hit makes it a replayed refutation
+            try:
+                rep = replay({}, obs[0])
+            except Exception as e:
+                rep = dict(reproduced=False,
+                           error='%s: %s' % (type(e).__name__, e))
+            failing[0]['replay'] = rep
+            if rep.get('reproduced'):
+                verdict = 'refuted'
         rec = dict(name=name, verdict=verdict, queries=nq,
                    backends=backends, seconds=round(time.time() - t0, 3),
                    failing=failing[:5], replay=rep, info=info or '')
